@@ -67,15 +67,15 @@ CLAIMED['C09'].update(category='other', technique=_SEM,
     text='Proved (unbounded, every well-typed boolean expression): split_and, _split_and_expr (work-list loop invariant), '
          '_and_presplit_transform, _split_and_not, _split_and_quantifier, empty_test: the conjunction of the parts is equivalent '
          'to the input on every valuation; every part is boolean and of none of the listed shapes; ValueError only if the input '
-         'is unsatisfiable. Assumed: semantic axioms A-SEM-1..3 (checked natively), quantifier/function-call constructor '
-         'contracts. Not proved: absence of TypeError/HplSanityError from the quantifier constructor (C14, bounded), the '
+         'is unsatisfiable. Assumed: semantic axioms A-SEM-1..3 (checked natively), the function-call constructor '
+         'contract (the quantifier constructor contract is proved by the checks of C03 / C02). Not proved: absence of TypeError/HplSanityError from the quantifier constructor (C14, bounded), the '
          'predicate-unwrapping dispatch. Bounded stand-in kept.',
     note='A-SEM; obligations lost with respect to /verif/baseline/C09.json are reported as violations without a failing input')
 CLAIMED['C10'].update(category='other', technique=_SEM,
     text='Proved (unbounded, every well-typed expression with hygienic quantifiers): _refactor_ref_expr, _split_ref_operator, '
          '_split_ref_negation, _split_ref_quantifier: (f1 and f2) == f on every valuation; f1 contains no reference to A; when f '
          'does not mention A the result is f itself paired with True. Assumed: semantic axioms A-SEM-1..3 (checked natively), '
-         'quantifier/function-call constructor contracts. Not proved (bounded): no bound variable escapes, the predicate-level '
+         'the function-call constructor contract (the quantifier constructor contract is proved by the checks of C03 / C02). Not proved (bounded): no bound variable escapes, the predicate-level '
          'wrapper and public dispatch, absence of TypeError/HplSanityError from the quantifier constructor (C14).',
     note='A-SEM; obligations lost with respect to /verif/baseline/C10.json are reported as violations without a failing input')
 CLAIMED['C13'].update(category='other', technique=_SEM,
